@@ -30,7 +30,7 @@ EXPLANATION = (
     'R5 (interpreterbase.py, if-clause narrowing): by origin, the receiver of Range.always is the project range read from project_meson_versions[..] '
     'and its argument the condition range self.tmp_meson_version (through locals and one level of private helpers), the value stored for the branch is '
     'their intersection, and the saved range is stored back on every CFG path out of the branch and before the table is read again. '
-    'R5 does NOT model exceptions raised by statements outside any try (sa.cfg has exception edges only inside try), nor writers of tmp_meson_version in other modules. '
+    'R5 does NOT model exceptions raised by statements outside any try other than control-flow requests of self-calls (round 12), nor writers of tmp_meson_version in other modules. '
     'Round 6: anchors are found by role and followed through helpers - the token producer (comprehension or append-loop, in __init__ or a module helper), '
     'the accumulator of version_check_to_range (the range returned after the loop), the lists of version_compare_many (loop or filtering comprehensions), '
     'the (operator, rest) pair of version_compare; Range.intersect is ONE table after inlining its private helpers; ==/!= are read from their decision tables; '
@@ -56,6 +56,15 @@ EXPLANATION = (
     'producer, a keyword dict grown by update()/item stores and splatted (`Range(**bounds)`), range constraints compared as half-ranges. R3 also: a constant verdict of '
     'version_compare on a path whose tests do not look at the operator; R7 also: the condition range is not recorded on a path that saw a `!=` constraint (flags by constant '
     'propagation, flag = any(..), predicate helper). '
+    'Round 12: also read - a left fold `reduce(step, xs, init)` (step = private function or lambda) as the accumulating loop; the emptiness normalisation of Range called under the name of the '
+    'private method/function that __post_init__ merely delegates to (R4c treats it as one call of the normaliser, R4b judges its body); every distinct copy of the filing loop of '
+    'version_compare_many after tail duplication. R4d also: a row whose new accumulator does not depend on the accumulated range drops the earlier checks. '
+    'R6 also: a call site that tests the satisfied list (3rd element) while it consults neither the verdict nor, in a test, the failed list decides on "some requirement holds" '
+    '(elements attributed to the call by reaching definitions; `x[2]`, unpacked names, len()/== [] spellings). R5 also: while the narrowed range is stored, a `self.` call that can leave through '
+    'a control-flow request (exception classes the source derives directly from BaseException: continue/break/subdir_done; who-may-raise closure over self-calls in the module) must stand under a '
+    'try whose finally / catch-all handler stores the saved range back; a handler that restores but is not catch-all, or a callee that writes the table itself, ends Undecided. '
+    'Does NOT decide at consumers of version_compare_many whether the branch taken on the verdict is the accepting one (polarity of the caller\'s own logic), nor decisions taken on a comparison of '
+    'the list lengths. '
     'NOT decided: (a) if-clause narrowing is applied whatever the condition does with the result of version_compare (`not ..`, `.. or true`): the narrowed range is then '
     'not the set of versions that run the block - in scope of the property, but evaluate_if cannot see it and a rule would have to prescribe a design; '
     '(b) int() of a digit run longer than the interpreter limit raises ValueError (not an order property). '
@@ -73,9 +82,46 @@ PREFIXES = {'>=': 'ge', '<=': 'le', '!=': 'ne', '==': 'eq', '=': 'eq', '>': 'gt'
 ANCHORED = {'_version_extract_cmpop'}       # helpers that have a table of their own: their calls stay calls
 
 
-def _nf(mod: T.Any, fn: T.Any, cls: T.Optional[str] = None, calls: T.Iterable[str] = ()) -> T.Any:
+def _nf(mod: T.Any, fn: T.Any, cls: T.Optional[str] = None, calls: T.Iterable[str] = (), skip: T.Iterable[str] = ()) -> T.Any:
     """The normal form all tables are extracted from (see c19_norm.normal_form)."""
-    return normal_form(fn, mod.tree, cls=cls, calls=calls, skip=ANCHORED - {fn.name})
+    return normal_form(fn, mod.tree, cls=cls, calls=calls, skip=(ANCHORED | set(skip)) - {fn.name})
+
+
+def _normaliser_names(mod: T.Any) -> T.Set[str]:
+    """Names under which the emptiness normalisation of Range can be called: `__post_init__` and, transitively, the private
+    method `self._m()` / module function `_f(self)` / `Range._m(self)` that a normaliser consists of (extract method so that the
+    dunder is not called explicitly, E1), or a private method that only calls a normaliser (an alias)."""
+    names = {'__post_init__'}
+
+    def sole_call(f: ast.AST) -> T.Optional[str]:
+        body = [st for st in f.body if not (isinstance(st, ast.Expr) and isinstance(st.value, ast.Constant)) and not isinstance(st, ast.Pass)]   # type: ignore[attr-defined]
+        if len(body) != 1 or not isinstance(body[0], (ast.Expr, ast.Return)) or not isinstance(body[0].value, ast.Call):
+            return None
+        c = body[0].value
+        params = [a.arg for a in f.args.posonlyargs + f.args.args]             # type: ignore[attr-defined]
+        if not params or c.keywords:
+            return None
+        if isinstance(c.func, ast.Attribute) and norm(c.func.value) == params[0] and not c.args:
+            return c.func.attr
+        if isinstance(c.func, ast.Attribute) and norm(c.func.value) == 'Range' and [norm(a) for a in c.args] == [params[0]]:
+            return c.func.attr
+        if isinstance(c.func, ast.Name) and [norm(a) for a in c.args] == [params[0]]:
+            return c.func.id
+        return None
+    cands: T.Dict[str, ast.AST] = {m.name: m for m in mod.cls('Range').body if isinstance(m, ast.FunctionDef)}
+    for st in mod.tree.body:
+        if isinstance(st, ast.FunctionDef) and st.name.startswith('_'):
+            cands.setdefault(st.name, st)
+    for _ in range(4):
+        for nm, f in cands.items():
+            tgt = sole_call(f)
+            if tgt is None:
+                continue
+            if nm in names and tgt in cands and tgt.startswith('_'):
+                names.add(tgt)          # a normaliser that only delegates: the delegate is the normaliser
+            elif tgt in names and nm.startswith('_'):
+                names.add(nm)           # an alias of a normaliser
+    return names
 
 
 def r1(ctx: RuleCtx) -> None:
@@ -518,11 +564,11 @@ def _r3_compare_many(ctx: RuleCtx, mod: T.Any) -> None:
     _r3_single_pass(ctx, mod, vm, vmn)
     lhs = (vm.args.posonlyargs + vm.args.args)[0].arg
     role: T.Dict[bool, T.Set[str]] = {True: set(), False: set()}
-    loops = [s for s in ast.walk(vmn) if isinstance(s, ast.For)]
-    if len({norm(l) for l in loops}) > 1:
-        raise Undecided('version_compare_many: more than one loop')
-    if loops:
-        tab2 = tables.extract(vmn, body=loops[0].body, name='version_compare_many:loop', inline=False,
+    # tail duplication repeats the loop on every path that reaches it (e.g. once over `[requirement]` and once over the iterable
+    # when the single string is wrapped by a conditional expression): every distinct loop is read, the roles are the union
+    loops = list({norm(s): s for s in ast.walk(vmn) if isinstance(s, ast.For)}.values())
+    for loop in loops:
+        tab2 = tables.extract(vmn, body=loop.body, name='version_compare_many:loop', inline=False,
                               effects=lambda st: norm(st) if isinstance(st, ast.Expr) else None)
         for r in tab2.rows:
             held = [v for a, v in r.conds.items() if 'version_compare(' in repr(a)]
@@ -533,7 +579,7 @@ def _r3_compare_many(ctx: RuleCtx, mod: T.Any) -> None:
             if len(effs) == 1:
                 e = ast.parse(effs[0], mode='eval').body
                 if isinstance(e, ast.Call) and isinstance(e.func, ast.Attribute) and e.func.attr == 'append' and isinstance(e.func.value, ast.Name) \
-                        and len(e.args) == 1 and norm(e.args[0]) == norm(loops[0].target):
+                        and len(e.args) == 1 and norm(e.args[0]) == norm(loop.target):
                     m = e.func.value.id
             if m is None:
                 raise Undecided(f'version_compare_many: cannot read what row {r!r} does with the requirement')
@@ -734,7 +780,10 @@ def r4_intersect(ctx: RuleCtx) -> None:
     which bound it holds and the truth of its inclusivity flag, not the text of the stores that produce them."""
     mod = ctx.repo.module(UNIVERSAL)
     fn = mod.func('Range.intersect')
-    tab = tables.extract(_nf(mod, fn, 'Range'), inline=False, effects=_assign_effects, name='Range.intersect')
+    # the emptiness normalisation is judged by R4b on __post_init__ (with its helpers inlined): here a call of it - under its dunder
+    # name or the name of the private method/function __post_init__ merely delegates to - stays ONE call of the normaliser
+    normalisers = _normaliser_names(mod)
+    tab = tables.extract(_nf(mod, fn, 'Range', skip=normalisers), inline=False, effects=_assign_effects, name='Range.intersect')
     res_names = {e.split(':=')[0].strip() for r in tab.rows for e in _effs(r) if e.endswith(':= copy.copy(self)') or e.endswith(':= copy(self)')}
     if len(res_names) != 1:
         raise Undecided(f'Range.intersect: the working copy of self was not found (candidates {sorted(res_names)})')
@@ -789,7 +838,7 @@ def r4_intersect(ctx: RuleCtx) -> None:
             if e in (f'{res} := copy.copy(self)', f'{res} := copy(self)'):
                 copied = True
                 continue
-            if e == f'call {res}.__post_init__()':
+            if e in {f'call {res}.{m}()' for m in normalisers} | {f'call {m}({res})' for m in normalisers} | {f'call Range.{m}({res})' for m in normalisers}:
                 normalised = True
                 continue
             t, _, v = (x.strip() for x in e.partition(':='))
@@ -1115,6 +1164,12 @@ def r4_check_to_range(ctx: RuleCtx) -> None:
             if acc != 'ARG2' and isinstance(final, ast.Call) and isinstance(final.func, ast.Attribute) and final.func.attr == 'intersect' and norm(final.func.value) == 'ARG2':
                 ctx.violation(mod, 'version_check_to_range', f'{acc} = {norm(final)}', f'every check is intersected with the start range `{params[1]}` instead of the '
                               f'accumulated `{acc}`: of several checks only the last one survives', r.path.events[-1].node if r.path.events else fn)
+                continue
+            if acc not in names_in_text(norm(final)):
+                # nothing of the range accumulated so far enters the new value (locals are already replaced by their definitions on this row)
+                ctx.violation(mod, 'version_check_to_range', 'accumulated range replaced by the range of one check', f'on the row `{r!r}`'[:300] + f' the accumulated range becomes '
+                              f'`{short(final, 90)}`, which does not depend on the range accumulated so far: the checks before this one (and the start range) are dropped',
+                              r.path.events[-1].node if r.path.events else fn)
                 continue
             raise Undecided(f'version_check_to_range: cannot read how the range is narrowed: {short(final)}')
         if final is None:
